@@ -171,6 +171,19 @@ Definition c_send (t : sst) (b a : obs) : bool :=
     | None => false
     end.
 
+(* A message that does not authenticate (forged, or replayed) has no effect whatsoever. *)
+Fixpoint tbl_eqb (a b : list (N * bool)) : bool :=
+  match a, b with
+  | [], [] => true
+  | x :: a', y :: b' => (fst x =? fst y) && Bool.eqb (snd x) (snd y) && tbl_eqb a' b'
+  | _, _ => false
+  end.
+Definition c_inert (b a : obs) : bool :=
+  c_frame b a && tbl_eqb (ob_table b) (ob_table a)
+  && match ob_hs b, ob_hs a with Some x, Some y => x =? y | None, None => true | _, _ => false end
+  && match ob_sent a with [] => true | _ => false end
+  && negb (is_some (ob_init a)) && negb (ob_resp a) && negb (ob_tun a).
+
 (* Trace bookkeeping + all clauses for one step.  Returns the new checker state and the
    number of the first clause that fails (0 = all hold). *)
 Definition first_false (l : list (N * bool)) : N :=
@@ -223,6 +236,8 @@ Definition sstep (t : sst) (ea : event * obs) : sst * N :=
        | Initiate _ => [(9, c_frame b a)]
        | Tick _ => [(10, c_frame b a);
                     (11, match ob_sent a with [] => true | _ => false end && negb (is_some (ob_init a)))]
+       | Forged _ => [(12, c_inert b a)]
+       | Replay _ => [(13, c_inert b a)]
        end) in
   (* bookkeeping for the next step *)
   let promoted :=
